@@ -11,7 +11,7 @@
 (* every transition of the bounded instance.  The same graph is the        *)
 (* source of the spec-derived operation sequences (binding B3).            *)
 (***************************************************************************)
-EXTENDS Cache
+EXTENDS Cache, Json
 
 CONSTANTS Cfg, MaxNow
 
@@ -86,6 +86,9 @@ Next == (\E a \in Args : DoOp(a)) \/ (\E k \in K, c \in {"Overflow", "Expiration
 Spec == Init /\ [][Next]_vars
 
 View == s
+\* binding B3: in simulation mode every step prints its argument record; the runner turns the behaviours into
+\* operation scripts for the sequential driver (the level restarts at every behaviour)
+SimLog == PrintT(<<"STEP", TLCGet("level"), ToJson(last'.a), ToJson(Cfg)>>)
 ----------------------------------------------------------------------------
 TimeOK(x) == x = INF \/ (x >= 0 /\ x <= MaxNow + 2)
 TypeOK ==
